@@ -41,6 +41,7 @@ type Kit struct {
 	TopArray   bool   // json: top-level array instead of {"recs":[...]}
 	Encoding   string // "" = utf-8 default
 	Filter     string // ModeFilter: the predicate on the target ("" = n!='0')
+	NoTrailer  bool   // edi: the (optional) TRL segment is absent, the input ends inside the repeating REC loop
 }
 
 // NewKit draws a kit for the format.
@@ -75,6 +76,7 @@ func NewKit(r *core.Rand, format string) *Kit {
 			k.Release = "?"
 		}
 		k.IgnoreCRLF = k.SegDelim != "\n" && r.Bool()
+		k.NoTrailer = r.Chance(1, 3)
 	case "json":
 		k.TopArray = r.Chance(1, 3)
 	}
@@ -555,7 +557,9 @@ func (k *Kit) Tail(r *core.Rand, o RenderOpts) []byte {
 	var sb strings.Builder
 	switch k.Format {
 	case "edi":
-		sb.WriteString("TRL" + k.SegDelim)
+		if !k.NoTrailer {
+			sb.WriteString("TRL" + k.SegDelim)
+		}
 	case "json":
 		if o.BlankLines {
 			sb.WriteString(nl)
